@@ -25,7 +25,7 @@ MAP = {
     "kemeny_score_computation.py": ["C01", "C04", "C10"],
     "algorithms/pairwisebasedalgorithm.py": ["C02", "C13", "C06", "C07", "C08"],
     "dataset.py": ["C16", "C17", "C14", "C12", "C18", "C02"],
-    "ranking.py": ["C16", "C17", "C20", "C18"],
+    "ranking.py": ["C20", "C16", "C17", "C18"],
     "element.py": ["C16", "C17", "C03"],
     "scoringscheme.py": ["C19", "C12", "C14", "C10"],
     "consensus.py": ["C04", "C13", "C01", "C07"],
